@@ -192,6 +192,31 @@ EvalTree(tr) ==
     [] tr.t = "cond" -> LET c == EvalTree(tr.c)
                         IN IF IsApprox(c) THEN c ELSE IF ToBool(c) THEN EvalTree(tr.x) ELSE EvalTree(tr.y)
 
+\* ---- expressions whose operands change the assignment target (round 3) -------------------------
+\* One assignment target T holding tv.  Nodes: lit | var (read T) | upd(op, pre) (++T T++ --T T--) | asg(x) (T = x) |
+\* cmpd(op, x) (T op= x) | call(w, x) (a call of a function that stores w in T and returns x; w, x are lit nodes) |
+\* un | bin | cond.  EvalS = [v |-> value of the expression, t |-> value left in T].  Operands are evaluated left to
+\* right, each seeing what the previous one left in T; a compound assignment reads T BEFORE its right operand is
+\* evaluated (13.15.2: GetValue(lref) precedes the evaluation of the AssignmentExpression), `T = x` does not read T.
+RECURSIVE EvalS(_, _)
+EvalS(tr, tv) ==
+  CASE tr.t = "lit" -> [v |-> tr.v, t |-> tv]
+    [] tr.t = "var" -> [v |-> tv, t |-> tv]
+    [] tr.t = "upd" -> IF IsApprox(tv) THEN [v |-> tv, t |-> tv]
+                       ELSE LET u == UpdOp(tr.op, tr.pre, tv) IN [v |-> u.res, t |-> u.after]
+    [] tr.t = "asg" -> LET e == EvalS(tr.x, tv) IN [v |-> e.v, t |-> e.v]
+    [] tr.t = "cmpd" -> LET e == EvalS(tr.x, tv)
+                            r == BinOp(tr.op, tv, e.v)
+                        IN [v |-> r, t |-> r]
+    [] tr.t = "call" -> [v |-> tr.x.v, t |-> tr.w.v]
+    [] tr.t = "un" -> LET e == EvalS(tr.x, tv) IN [v |-> UnOp(tr.op, e.v), t |-> e.t]
+    [] tr.t = "bin" -> LET l == EvalS(tr.l, tv)
+                       IN IF tr.op = "&&" /\ ~IsApprox(l.v) /\ ~ToBool(l.v) THEN l
+                          ELSE IF tr.op = "||" /\ ~IsApprox(l.v) /\ ToBool(l.v) THEN l
+                          ELSE LET r == EvalS(tr.r, l.t) IN [v |-> BinOp(tr.op, l.v, r.v), t |-> r.t]
+    [] tr.t = "cond" -> LET c == EvalS(tr.c, tv)
+                        IN IF IsApprox(c.v) THEN c ELSE IF ToBool(c.v) THEN EvalS(tr.x, c.t) ELSE EvalS(tr.y, c.t)
+
 \* does the observed value agree with the specified one ?
 ValAgrees(act, exp) ==
   IF IsApprox(exp) THEN act.k = "num" /\ ~WIsNaN(act.w) /\ (WSign(act.w) = exp.s)
